@@ -166,6 +166,48 @@ HOSTILE = [b'$-0\r\n\r\n', b'$+3\r\nabc\r\n', b'$003\r\nabc\r\n', b'$-5\r\n', b'
            b'$0\r\n\r\n', b'$0\r\nXY', b'$0\r\n\r', b'*1\r\n*1\r\n*1\r\n*0\r\n', b'*1\r\n*1\r\n*1\r\n*-1\r\n', b'$1\r\n\n\r\n', b'$2\r\n\r\n\r\n', b'$4\r\n\r\n\r\n\r\n']
 
 
+PING = b'*1\r\n$4\r\nPING\r\n'
+SHORTEST = [('S', b''), ('E', b''), ('I', b''), ('I', b'0'), ('B', b''), ('BN',), ('A', []), ('AN',)]
+
+def tiny_values():
+    out = []
+    for n in (1, 2, 3, 5):
+        for e in SHORTEST: out.append(('A', [e] * n))
+    L3 = [('S', b''), ('E', b''), ('I', b'')]
+    out += [('A', [('E', b''), ('I', b'1')]), ('A', [('S', b''), ('B', b'ab')]), ('A', L3), ('A', L3 + [('B', b'x')]), ('A', [('B', b'x')] + L3),
+            ('A', [('A', [('S', b'')]), ('E', b'')]), ('A', [('A', L3), ('A', L3)]), ('A', [('A', [('A', [('S', b'')])])]), ('A', [('A', [('A', [('S', b'')]), ('S', b'')]), ('I', b'')]),
+            ('A', [('A', [('S', b'ok')])]), ('A', [('S', b''), ('A', []), ('AN',), ('BN',), ('E', b'')]), ('A', SHORTEST), ('A', [('A', SHORTEST)])]
+    return out
+
+def tiny_streams(tiny, r, limit):
+    out = []
+    for v in tiny:
+        e = py_encode(v)
+        out += [e, e + PING, e + e]
+    out.append(py_encode(tiny[0]) + py_encode(tiny[-1]) + py_encode(('S', b'')))
+    out = [x for x in out if len(x) <= 70]
+    if len(out) > 3 * limit:
+        keep = out[:12]
+        rest = out[12:]; r.shuffle(rest)
+        out = keep + rest[:3 * limit - 12]
+    return out
+
+def stream_group(s, sid, r, nrandom):
+    """the unsplit stream, every single split point, a few random multi-splits, byte by byte"""
+    g = [('stream ' + vlib.hexs(s), {'kind': 'stream', 'sid': sid, 'stream': s, 'whole': True})]
+    for i in range(1, len(s)):
+        g.append(('stream %s %s' % (vlib.hexs(s[:i]), vlib.hexs(s[i:])), {'kind': 'stream', 'sid': sid, 'stream': s}))
+    for _ in range(nrandom):
+        cuts = sorted(set(r.randrange(0, len(s) + 1) for _ in range(r.randint(2, 7))))
+        parts, p0 = [], 0
+        for cpos in cuts + [len(s)]:
+            parts.append(s[p0:cpos]); p0 = cpos
+        g.append(('stream ' + ' '.join(vlib.hexs(x) for x in parts), {'kind': 'stream', 'sid': sid, 'stream': s}))
+    if len(s) > 1:
+        g.append(('stream ' + ' '.join(vlib.hexs(s[i:i + 1]) for i in range(len(s))), {'kind': 'stream', 'sid': sid, 'stream': s}))
+    return g
+
+
 def gen_cases(chk):
     r = chk.rng
     quick = chk.tier == 'quick'
@@ -177,6 +219,10 @@ def gen_cases(chk):
                    ('A', []), ('A', [('BN',)]), ('A', [('B', b'GET'), ('B', b'k\r\n')]), ('A', [('A', [('A', [])]), ('AN',)]), ('S', b'a\rb'), ('S', b'a\r'),
                    ('S', b'a\nb'), ('E', b'\n'), ('I', b'1\n2'), nest(127, ('S', b'a')), nest(128, ('S', b'a')), nest(129, ('S', b'a')), nest(128, ('AN',)),
                    nest(127, ('AN',)), nest(128, ('BN',)), ('A', [nest(127, ('B', b'x')), ('S', b'y')]), ('B', b'x' * 300), ('A', [('I', b'1')] * 12)]
+    # arrays made of the shortest possible elements (3-byte `+\r\n` `-\r\n` `:\r\n`, 4-byte `:0\r\n` `*0\r\n`, `$-1\r\n`, `$0\r\n\r\n`):
+    # alone, mixed, nested; each is decoded as the LAST thing in the buffer and followed by a pipelined packet, and streamed
+    tiny = tiny_values()
+    corpus_vals += tiny
     values = list(corpus_vals)
     nvals = 500 if quick else 6000
     for _ in range(nvals):
@@ -188,6 +234,10 @@ def gen_cases(chk):
         e = py_encode(v)
         rest = r.choice([b'', b'', b'+x\r\n', b'$', b'\r\n', b'\n', b'*2\r\n', bytes(r.getrandbits(8) for _ in range(r.randint(1, 5)))])
         add('dec ' + vlib.hexs(e + rest), kind='rt', value=v, enc=e)
+        if len(e) <= 64:
+            # complete packet as the last thing in the buffer / followed by the first bytes of a pipelined packet
+            for rest2 in (b'', b'*', b'*1', PING[:5], PING):
+                if rest2 != rest: add('dec ' + vlib.hexs(e + rest2), kind='rt', value=v, enc=e)
     # --- malformed stream through one decode call
     for h in HOSTILE: add('dec ' + vlib.hexs(h), kind='mal')
     nmal = 4000 if quick else 40000
@@ -207,6 +257,9 @@ def gen_cases(chk):
     # --- streams: pipelines, every single split point, random multi-splits
     nstreams = 150 if quick else 900
     sid = 0
+    for s0 in tiny_streams(tiny, r, 40 if quick else len(tiny)):
+        sid += 1
+        for ln, meta in stream_group(s0, sid, r, 3): cases.append((ln, meta))
     for si in range(nstreams):
         c = r.random()
         vs = [gen_value(r, 0, 2) for _ in range(r.choice([1, 2, 3, 4]))]
@@ -341,6 +394,30 @@ def run(chk):
     if not ok:
         return
     cases = gen_cases(chk)
+    st = evaluate(chk, cases, None)
+    nfail, disagreements = st['nfail'], st['disagreements']
+    searched = 0
+    if disagreements and not nfail:
+        # failing-input search: the property monitors on small mutations of every disagreeing case
+        extra = derive_search_cases(chk, disagreements)
+        searched = len(extra)
+        st2 = evaluate(chk, extra, 'failing-input search around the model/implementation disagreements (first: %s)' % disagreements[0]['case'][:120])
+        nfail += st2['nfail']
+        for k, v in st2['hist'].items(): st['hist']['search:' + k] = v
+        st['ngroups'] += st2['ngroups']
+    chk.cov['traces_validated_against_impl'] = len(cases) - len(disagreements)
+    chk.sub('distribution', kinds=st['hist'], outcomes=st['outk'], split_groups=st['ngroups'], monitor_failures=nfail, disagreements=len(disagreements),
+            failing_input_search_cases=searched)
+    if disagreements and not nfail:
+        chk.violation({'kind': 'correspondence', 'correspondence': 'Model/Resp.v vs src/protocol (stateless.rs, resp.rs, encoder.rs, packet.rs, codec.rs)',
+                       'first': disagreements[0], 'count': len(disagreements),
+                       'search': 'monitors (round trip, split invariance, forwarding, strictness, no panic) evaluated on all %d implementation outputs '
+                                 'incl. the disagreeing ones and on %d derived cases (truncations, extensions by a pipelined packet, elements replaced by '
+                                 'the shortest elements, encodings of the values the model parses): no property failure' % (len(cases), searched)}, no_input=True)
+
+
+def evaluate(chk, cases, found_by):
+    """runs implementation and model on the cases, evaluates every monitor on the implementation outputs"""
     lines = [c[0] for c in cases]
     rc1, impl = chk.run_impl('resp', lines, jobs=8)
     rc2, model = chk.run_model('resp', lines, jobs=8)
@@ -357,12 +434,16 @@ def run(chk):
         bad = monitor_single(line, meta, o)
         if bad:
             nfail += 1
-            chk.violation({'kind': 'monitor', 'case': line, 'impl': o[:2000], 'model': m[:2000], 'what': bad})
+            d = {'kind': 'monitor', 'case': line, 'impl': o[:2000], 'model': m[:2000], 'what': bad}
+            if 'value' in meta: d['value'] = ' '.join(tokens(meta['value']))[:400]
+            if line.startswith('dec '): d['failing_bytes'] = repr(unhex(line.split()[1]) if len(line.split()) > 1 else b'')
+            if found_by: d['found_by'] = found_by
+            chk.violation(d)
         elif o != m:
             disagreements.append({'case': line, 'impl': o[:2000], 'model': m[:2000]})
         if meta['kind'] in ('stream', 'multi1'):
             groups.setdefault((meta['kind'], meta['sid']), []).append((line, o, meta.get('whole', False)))
-        if i % 997 == 0: chk.sample({'case': line[:300], 'impl': o[:300], 'model': m[:300]})
+        if i % 997 == 0 and not found_by: chk.sample({'case': line[:300], 'impl': o[:300], 'model': m[:300]})
     # split invariance on the implementation's outputs
     ngroups = 0
     for (kind, sid), members in groups.items():
@@ -373,16 +454,94 @@ def run(chk):
         for line, o, _ in members:
             if canon(o) != canon(ref[1]):
                 nfail += 1
-                chk.violation({'kind': 'monitor', 'case': line, 'cases': [ref[0], line], 'impl': o[:2000], 'impl_unsplit': ref[1][:2000],
-                               'what': 'the packets produced depend on how the byte stream is split into reads'})
+                d = {'kind': 'monitor', 'case': line, 'cases': [ref[0], line], 'impl': o[:2000], 'impl_unsplit': ref[1][:2000],
+                     'what': 'the packets produced depend on how the byte stream is split into reads'}
+                if kind == 'stream': d['failing_bytes'] = repr(b''.join(unhex(x) for x in ref[0].split()[1:]))
+                if found_by: d['found_by'] = found_by
+                chk.violation(d)
                 break
-    chk.cov['traces_validated_against_impl'] = len(cases) - len(disagreements)
-    chk.sub('distribution', kinds=hist, outcomes=outk, split_groups=ngroups, monitor_failures=nfail, disagreements=len(disagreements))
-    if disagreements and not nfail:
-        chk.violation({'kind': 'correspondence', 'correspondence': 'Model/Resp.v vs src/protocol (stateless.rs, resp.rs, encoder.rs, packet.rs, codec.rs)',
-                       'first': disagreements[0], 'count': len(disagreements),
-                       'search': 'monitors (round trip, split invariance, forwarding, strictness, no panic) evaluated on all %d implementation outputs '
-                                 'incl. the disagreeing ones: no property failure' % len(cases)}, no_input=True)
+    return {'nfail': nfail, 'disagreements': disagreements, 'hist': hist, 'outk': outk, 'ngroups': ngroups}
+
+
+def case_bytes(line):
+    t = line.split()
+    if t[0] == 'dec': return unhex(t[1]) if len(t) > 1 else b''
+    if t[0] == 'stream': return b''.join(unhex(x) for x in t[1:])
+    if t[0] == 'multi': return b''.join(unhex(t[i + 1]) for i in range(len(t) - 1) if t[i] == 'C')
+    return None
+
+def replace_elements(v):
+    """the value with each / every element of its arrays (top two levels) replaced by the shortest elements"""
+    out = []
+    if v[0] != 'A': return out
+    n = len(v[1])
+    for e in SHORTEST:
+        out.append(('A', [e] * n))
+        for k in range(min(n, 4)):
+            out.append(('A', v[1][:k] + [e] + v[1][k + 1:]))
+    for k in range(min(n, 3)):
+        for sub in replace_elements(v[1][k])[:8]:
+            out.append(('A', v[1][:k] + [sub] + v[1][k + 1:]))
+    return out
+
+def derive_search_cases(chk, disagreements, max_dis=40):
+    r = chk.rng
+    byte_cands, values = [], []
+    seen_b, seen_v = set(), set()
+    def addb(b):
+        if b is not None and len(b) <= 200 and b not in seen_b: seen_b.add(b); byte_cands.append(b)
+    def addv(v):
+        k = ' '.join(tokens(v))
+        if len(k) < 600 and k not in seen_v: seen_v.add(k); values.append(v)
+    for d in disagreements[:max_dis]:
+        B = case_bytes(d['case'])
+        if B is None:
+            if d['case'].startswith('enc '):
+                try: addv(parse_tokens(d['case'].split()[1:])[0])
+                except Exception: pass
+            continue
+        addb(B); addb(B + PING); addb(B + b'+x\r\n')
+        step = max(1, len(B) // 48)
+        for i in range(0, len(B), step): addb(B[:i])
+        # every declared array length in the bytes: arrays of that many shortest elements, uniform and mixed
+        for mt in re.finditer(rb'\*([0-9]{1,2})\r\n', B):
+            n = int(mt.group(1))
+            if 1 <= n <= 8:
+                for e in SHORTEST: addv(('A', [e] * n))
+                addv(('A', [SHORTEST[k % len(SHORTEST)] for k in range(n)]))
+                addv(('A', [('A', [SHORTEST[k % 3] for k in range(n)])]))
+        for out in (d['impl'], d['model']):
+            t = out.split()
+            if t and t[0] == 'ok':
+                try: addv(parse_tokens(t[3:])[0])
+                except Exception: pass
+    # values the model parses out of the byte candidates
+    _, mouts = chk.run_model('resp', ['dec ' + vlib.hexs(b) for b in byte_cands], jobs=4)
+    for o in mouts:
+        t = o.split()
+        if t and t[0] == 'ok':
+            try: addv(parse_tokens(t[3:])[0])
+            except Exception: pass
+    for v in list(values)[:120]:
+        for w in replace_elements(v)[:60]: addv(w)
+    values = values[:700]
+    cases = []
+    sid = 10 ** 6
+    for v in values:
+        e = py_encode(v)
+        cases.append(('enc ' + ' '.join(tokens(v)), {'kind': 'enc', 'value': v}))
+        for rest in (b'', b'*', b'*1', PING[:5], PING, b'+x\r\n'):
+            cases.append(('dec ' + vlib.hexs(e + rest), {'kind': 'rt', 'value': v, 'enc': e}))
+        if len(e) <= 48:
+            for s0 in (e, e + PING):
+                sid += 1
+                cases += stream_group(s0, sid, r, 2)
+    for b in byte_cands:
+        cases.append(('dec ' + vlib.hexs(b), {'kind': 'mal'}))
+        if 0 < len(b) <= 48:
+            sid += 1
+            cases += stream_group(b, sid, r, 2)
+    return cases
 
 
 def replay(data):
